@@ -216,15 +216,18 @@ class Crazyflie():
             self.link.close()
         self.link = None
         self._answer_patterns = {}
-        if (self.state == State.INITIALIZED):
+        # Leave the old state before telling the application, a callback may
+        # open the link again
+        state = self.state
+        self.state = State.DISCONNECTED
+        if (state == State.INITIALIZED):
             self.connection_failed.call(self.link_uri, errmsg)
-        elif (self.state == State.CONNECTED or
-                self.state == State.SETUP_FINISHED):
+        elif (state == State.CONNECTED or
+                state == State.SETUP_FINISHED):
             self.disconnected.call(self.link_uri)
             self.connection_lost.call(self.link_uri, errmsg)
-        elif (self.state == State.DISCONNECTED):
+        elif (state == State.DISCONNECTED):
             self.disconnected_link_error.call(self.link_uri, errmsg)
-        self.state = State.DISCONNECTED
 
     def _check_for_initial_packet_cb(self, data):
         """
@@ -286,8 +289,8 @@ class Crazyflie():
             self.link.close()
             self.link = None
         self._answer_patterns = {}
-        self.disconnected.call(self.link_uri)
         self.state = State.DISCONNECTED
+        self.disconnected.call(self.link_uri)
 
     """Check if the communication link is open or not."""
 
